@@ -209,6 +209,12 @@ def generate(repo_dir):
     o.append('/-- alternatives of `p_identifier` -/')
     o.append('def identifierAlts : List String := [%s]' % ', '.join(_lean_str(a) for a in ident_alts))
     o.append('')
+    for a in ident_alts:
+        if a != 'ID' and a not in reserved:
+            raise ValueError('identifier alternative %r is neither ID nor a reserved word' % a)
+    o.append('def identifierAllowsID : Bool := %s' % ('true' if 'ID' in ident_alts else 'false'))
+    o.append('def identifierKws : List Kw := [%s]' % ', '.join('.%s' % a for a in ident_alts if a != 'ID'))
+    o.append('')
     o.append('/-- the comparisons in the `p_cardinality_*` actions -/')
     o.append('def cardinalityChecks : List (String × String) := [%s]' % ', '.join(
         '(%s, %s)' % (_lean_str(a), _lean_str(b)) for a, b in card_checks))
